@@ -1,3 +1,5 @@
 import P2.Model.Basic
 import P2.Model.Json
 import P2.Spec.JsonDec
+import P2.Model.Binning
+import P2.Spec.Histogram
